@@ -40,7 +40,7 @@ class C03(Check):
         'doc/not-json', 'doc/invalid-request-object', 'doc/batch-rejected/empty', 'doc/batch-rejected/invalid-element',
         'call/unknown-method', 'call/params-do-not-bind', 'call/raises-protocol-error', 'call/raises-exception',
         'notification/raises-protocol-error', 'notification/raises-exception', 'app-error/data-absent', 'app-error/data-null',
-        'app-error/code-0', 'app-error/empty-message', 'exception/TypeError', 'carrier/batch-element-failure', 'leak/checked',
+        'app-error/code-0', 'app-error/empty-message', 'exception/TypeError', 'carrier/batch-element-failure', 'leak/checked', 'logging/debug',
     ]
 
     def strategy(self, tier: str):
@@ -50,7 +50,8 @@ class C03(Check):
             gen = docs.document(reg, kinds=['single'] * 5 + ['batch'] * 5 + ['mangled', 'raw', 'value'],
                                 flavours=['valid'] * 10 + ['unknown-method'] * 2 + ['deviant', 'deviant', 'non-object'])
             return st.builds(
-                lambda text, beh, mbs, codec: {'dispatcher': kind, 'max_batch_size': batch_limit(text, mbs), 'behaviours': beh, 'text': text, 'codec': codec},
+                lambda text, beh, mbs, codec: {'dispatcher': kind, 'max_batch_size': batch_limit(text, mbs), 'behaviours': beh, 'text': text, 'codec': codec,
+                                           'logging': 'debug' if (len(beh) + (mbs is None)) % 3 == 0 else 'off'},
                 gen, stdreg.behaviours(True), st.sampled_from(BATCH_LIMITS), st.sampled_from(CODEC_CHOICES),
             )
         return st.one_of(for_kind('sync'), for_kind('async'))
@@ -79,6 +80,9 @@ class C03(Check):
                 beh = {'boom': {'kind': 'raise_exc', 'exc': exc, 'marker': f'MARKER-{exc}-zq'}, 'boom2': {'kind': 'raise_exc', 'exc': exc, 'marker': f'MARKER-{exc}-zq'}}
                 out.append({**base, 'behaviours': beh, 'text': t([{'jsonrpc': '2.0', 'id': 1, 'method': 'boom'}, {'jsonrpc': '2.0', 'method': 'boom2'},
                                                                    {'jsonrpc': '2.0', 'id': 2, 'method': 'boom2'}])})
+                if exc in ('ValueError', 'ZzUnprintable', 'KeyError'):
+                    # the same with the library's loggers at DEBUG (what is logged must not change what is answered)
+                    out.append({**base, 'logging': 'debug', 'behaviours': beh, 'text': t([{'jsonrpc': '2.0', 'id': 1, 'method': 'boom'}, {'jsonrpc': '2.0', 'method': 'boom2'}])})
         return out
 
     def run_case(self, spec: Any) -> Outcome:
